@@ -62,9 +62,12 @@ structure Disk where
   tmp : Option (List Rec × Bool)
   rowsets : List RowsetDir
   dvfiles : List DvFile
+  /-- what `manifest.json` held before the last `rename` of the tmp file over it.  The code never
+  fsyncs the directory after that rename, so a file system may still lose it (`loseRename`). -/
+  shadow : Option (List Rec) := none
   deriving Repr, DecidableEq, BEq
 
-def Disk.empty : Disk := ⟨0, [], false, none, [], []⟩
+def Disk.empty : Disk := ⟨0, [], false, none, [], [], none⟩
 
 inductive PStep where
   | mkdirDb | mkdirDv | createManifest
@@ -119,7 +122,7 @@ def Disk.apply (d : Disk) (s : PStep) (p : Progress) : Disk :=
     | _ => { d with tmp := some (rs, false) }
   | .renameTmp =>
     match d.tmp with
-    | some (rs, torn) => { d with recs := rs, torn := torn, tmp := none }
+    | some (rs, torn) => { d with recs := rs, torn := torn, tmp := none, shadow := some d.recs }
     | none => d
   | .rmdir t r => { d with rowsets := d.rowsets.filter fun x => !(x.t == t && x.r == r) }
 
@@ -207,7 +210,10 @@ def view (d : Disk) : Except String View :=
   if d.torn then .error "json-eof"
   else match View.empty.applyRecs (replay d.recs) with
     | .error e => .error e
-    | .ok v => if filesOk d v then .ok v else .error "missing-or-short-file"
+    | .ok v =>
+      if filesOk d v then .ok v
+      else if v.dvs.any (fun x => !v.tables.any (·.id == x.1)) then .error "dv-of-dropped-table"
+      else .error "missing-or-short-file"
 
 /-- Insertion sort of naturals / keys (core only). -/
 def insertBy {α : Type} (lt : α → α → Bool) (a : α) : List α → List α
@@ -253,13 +259,15 @@ def recoverSteps (d : Disk) (v : View) : List PStep :=
 structure State where
   disk : Disk
   mem : View
+  /-- row-set directories logically deleted, waiting for the vacuum task (in memory only) -/
+  pending : List (Nat × Nat) := []
   deriving Repr, DecidableEq, BEq
 
 /-- `SecondaryStorage::open`. -/
 def recover (d : Disk) : Except String State :=
   match view d with
   | .error e => .error e
-  | .ok v => .ok ⟨d.applyAll (recoverSteps d v), v⟩
+  | .ok v => .ok ⟨d.applyAll (recoverSteps d v), v, []⟩
 
 inductive Cmp where | ge | lt | eq | all
   deriving Repr, DecidableEq, BEq
@@ -278,6 +286,10 @@ inductive Op where
   | insert (name : String) (rows : List (List Int))
   | delete (name : String) (c : Cmp) (k : Int)
   | reopen
+  /-- one compactor pass over table `name` (`Compactor::compact_table`) -/
+  | compact (name : String)
+  /-- one vacuum pass (`VersionManager::do_vacuum`) -/
+  | vacuum
   deriving Repr, DecidableEq, BEq
 
 def tableOf (v : View) (name : String) : Option TableInfo := v.tables.find? (·.name == name)
@@ -289,6 +301,10 @@ def deleteDvs (d : Disk) (v : View) (t : Nat) (c : Cmp) (k : Int) : List (Nat ×
     let pos := ((liveRows d v t r).filter fun p => c.test k p.2).map (·.1)
     if pos.isEmpty then none else some (r, pos)
   (List.range touched.length).zip touched |>.map fun (i, (r, pos)) => (r, v.nextD + i, pos)
+
+/-- Rows a compaction of table `t` writes: the live rows of its row-sets in row-set id order. -/
+def mergedRows (d : Disk) (v : View) (t : Nat) : List (List Int) :=
+  (rowsetsOf v t).flatMap fun r => (liveRows d v t r).map (·.2)
 
 /-- The manifest transaction of a statement (between `Begin` and `End`). -/
 def txnOf (s : State) : Op → Option (List Rec)
@@ -303,6 +319,16 @@ def txnOf (s : State) : Op → Option (List Rec)
   | .delete name c k =>
     (tableOf s.mem name).map fun ti => (deleteDvs s.disk s.mem ti.id c k).map fun x => Rec.addDV ti.id x.1 x.2.1
   | .reopen => none
+  | .vacuum => none
+  | .compact name =>
+    match tableOf s.mem name with
+    | none => none
+    | some ti =>
+      let live := rowsetsOf s.mem ti.id
+      if live.length ≤ 1 then none
+      else
+        some ((if (mergedRows s.disk s.mem ti.id).isEmpty then [] else [Rec.addRowSet ti.id s.mem.nextR]) ++
+          live.map fun r => Rec.deleteRowSet ti.id r)
 
 /-- Steps that only create files nothing references yet (write-ahead part of a statement). -/
 def dataSteps (s : State) : Op → List PStep
@@ -317,11 +343,20 @@ def dataSteps (s : State) : Op → List PStep
     match tableOf s.mem name with
     | none => []
     | some ti => (deleteDvs s.disk s.mem ti.id c k).map fun x => PStep.writeDv ti.id x.1 x.2.1 x.2.2
+  | .compact name =>
+    match tableOf s.mem name with
+    | none => []
+    | some ti =>
+      let rows := mergedRows s.disk s.mem ti.id
+      if (rowsetsOf s.mem ti.id).length ≤ 1 || rows.isEmpty then []
+      else [PStep.mkdir ti.id s.mem.nextR rows (2 * ti.ncols)] ++
+        (List.range (2 * ti.ncols)).map fun i => PStep.writeFile ti.id s.mem.nextR i
   | _ => []
 
 def psteps (s : State) (op : Op) : List PStep :=
   match op with
   | .reopen => recoverSteps s.disk s.mem
+  | .vacuum => s.pending.map fun x => PStep.rmdir x.1 x.2
   | _ =>
     match txnOf s op with
     | none => []
@@ -331,12 +366,16 @@ def psteps (s : State) (op : Op) : List PStep :=
 def step (s : State) (op : Op) : State :=
   match op with
   | .reopen => match recover s.disk with | .ok s' => s' | .error _ => s
+  | .vacuum => { s with disk := s.disk.applyAll (psteps s op), pending := [] }
   | _ =>
     match txnOf s op with
     | none => s
     | some es =>
       match s.mem.applyRecs es with
-      | .ok v => ⟨s.disk.applyAll (psteps s op), v⟩
+      | .ok v =>
+        -- every DeleteRowSet entry of the transaction is queued for the vacuum
+        let dels := es.filterMap fun e => match e with | .deleteRowSet t r => some (t, r) | _ => none
+        ⟨s.disk.applyAll (psteps s op), v, s.pending ++ dels⟩
       | .error _ => s
 
 def run (s : State) (ops : List Op) : State := ops.foldl step s
@@ -352,6 +391,13 @@ def allEnabled (d : Disk) (steps : List PStep) : Bool :=
     match steps[i]? with
     | some s => enabled (d.applyAll (steps.take i)) s
     | none => true
+
+/-- The file system drops the un-fsynced `rename`: `manifest.json` is again the old file, the
+file that had been renamed over it (with everything appended to it since) is `manifest.tmp.json`. -/
+def loseRename (d : Disk) : Disk :=
+  match d.shadow with
+  | some old => { d with recs := old, torn := false, tmp := some (d.recs, d.torn), shadow := none }
+  | none => d
 
 end Crash
 end RlModel
